@@ -38,6 +38,18 @@ func init() {
 				jobs = append(jobs, run.Job{ID: fmt.Sprintf("det/list%d:%s", i, s.String()), Pkg: run.Module, Harness: "H_Det", Params: s.Params("x86_64", i%2, names, true)})
 				jobs = append(jobs, run.Job{ID: fmt.Sprintf("writes/list%d:%s", i, s.String()), Pkg: run.Module, Harness: "H_Writes", Params: s.Params("x86_64", 0, names, true), Race: true})
 			}
+			// histories: the same policy compiled again after ANOTHER compilation (rejected half-way, or valid and
+			// different): pools, caches and scratch state must not carry anything over
+			for i, s := range shapes {
+				if len(s.Groups[0].ents) > 0 || s.Groups[0].u == 0 || (i%5 != 0 && c.Tier != "thorough") {
+					continue
+				}
+				for other := 1; other <= 3; other++ {
+					p := s.Params("x86_64", 0, names, true)
+					p["other"] = other
+					jobs = append(jobs, run.Job{ID: fmt.Sprintf("after/%d/other%d:%s", i, other, s.String()), Pkg: run.Module, Harness: "H_DetAfter", Params: p})
+				}
+			}
 			// large shapes: bridging (the labels map is ranged over in updateIndices)
 			lj, err := largeCondJobs(c, "C13", "x86_64", []condLayout{{64, 1}, {22, 3}}, 0)
 			if err != nil {
@@ -62,8 +74,8 @@ func init() {
 			jobs = append(jobs, run.Job{ID: "pure", Pkg: run.Module, Harness: "H_Pure", Params: map[string]interface{}{}, Race: true})
 			return jobs, nil
 		},
-		NeedCovers: []string{"assembled", "compiled", "ran", "cover.text", "cover.text.both_flags"},
-		Bounds:     map[string]interface{}{"shapes": "all valid structures of weight <=5 (quick) / <=7 (thorough), plus long conditional lists and name lists that need bridge instructions", "map_orders": "ascending and descending key order for every range over a map (maps of <=3 entries could be explored in all orders; the two extremes are used)", "values": "all operands, indices, actions; all 2^32 flag and action words for the text forms; all strings for the lookups"},
+		NeedCovers: []string{"assembled", "compiled", "ran", "cover.text", "cover.text.both_flags", "assembled_after", "cover.after_rejected", "cover.after_other"},
+		Bounds:     map[string]interface{}{"shapes": "all valid structures of weight <=5 (quick) / <=7 (thorough), plus long conditional lists and name lists that need bridge instructions", "histories": "for every fifth (thorough: every) shape whose first group has names: reference compilation, then another compilation (unknown name appended / duplicate name / the groups reversed with swapped actions), then the policy again - same program, and the reference still intact", "map_orders": "ascending and descending key order for every range over a map (maps of <=3 entries could be explored in all orders; the two extremes are used)", "values": "all operands, indices, actions; all 2^32 flag and action words for the text forms; all strings for the lookups"},
 		Outside:    []string{"compiling the same *Policy value from two goroutines (writes its arch field; excluded by the statement's 'distinct policy values')", "the Go runtime and memory model themselves", "interleavings are not enumerated: disjoint write sets + unwritten shared reads => data-race free and independent (DRF reduction)", "cross-process determinism beyond map order: no other source of nondeterminism (time, randomness, environment, pointer values) is reached - any call to one would stop the run as unmodelled"},
 		Assumptions: []string{"two computations whose write sets are private and whose shared reads are never written neither race nor influence each other (Go memory model)"},
 		Trusted:    []string{"the engine's write monitor (every Store, MapUpdate, append and copy that hits an object reachable from the shared roots or from package state)", "gosym engine; replay natively with -race", "z3/cvc5"},
